@@ -25,6 +25,32 @@ func (e *Engine) isNonNil(st *State, v ssa.Value) bool {
 	return st.nonnil[e.vid(v)]
 }
 
+// isDeepNN: an interface value that is non-nil and, if it holds a pointer, holds a non-nil pointer.
+func (e *Engine) isDeepNN(st *State, v ssa.Value) bool {
+	switch x := v.(type) {
+	case *ssa.MakeInterface:
+		if _, isPtr := x.X.Type().Underlying().(*types.Pointer); isPtr {
+			return e.isNonNil(st, x.X)
+		}
+		return true
+	case *ssa.ChangeType:
+		return e.isDeepNN(st, x.X)
+	case *ssa.ChangeInterface:
+		return e.isDeepNN(st, x.X)
+	case *ssa.Const:
+		return false
+	}
+	return st.nonnil["D"+e.vid(v)]
+}
+
+// elemsDeepNN: all elements of a slice of interfaces are deeply non-nil.
+func (e *Engine) elemsDeepNN(st *State, v ssa.Value) bool {
+	if c, ok := v.(*ssa.Const); ok && c.Value == nil {
+		return true
+	}
+	return st.elemsNN["D"+e.vid(v)]
+}
+
 func (e *Engine) isNil(st *State, v ssa.Value) bool {
 	if c, ok := v.(*ssa.Const); ok {
 		return c.Value == nil && isPointerLike(c.Type())
@@ -111,6 +137,7 @@ func (e *Engine) zeroObject(st *State, obj string, t types.Type) {
 		case 1:
 			st.Bind(e.cellLen(key), Const(0))
 			st.elemsNN[key] = true
+			st.elemsNN["D"+key] = true
 			delete(st.ptr, key)
 		case 2:
 			st.isnil[key] = true
@@ -249,13 +276,16 @@ func (e *Engine) copyLeaves(st *State, dstKey, srcKey string, t types.Type, srcK
 			if srcKnown {
 				st.Bind(e.cellLen(d), st.Expr(e.cellLen(s)))
 				setBool(st.elemsNN, d, st.elemsNN[s])
+				setBool(st.elemsNN, "D"+d, st.elemsNN["D"+s])
 			} else {
 				st.Forget(e.cellLen(d))
 				delete(st.elemsNN, d)
+				delete(st.elemsNN, "D"+d)
 			}
 		case 2:
 			if srcKnown {
 				setBool(st.nonnil, d, st.nonnil[s])
+				setBool(st.nonnil, "D"+d, st.nonnil["D"+s])
 				setBool(st.isnil, d, st.isnil[s])
 				if p, ok := st.ptr[s]; ok {
 					st.ptr[d] = p
@@ -264,6 +294,7 @@ func (e *Engine) copyLeaves(st *State, dstKey, srcKey string, t types.Type, srcK
 				}
 			} else {
 				delete(st.nonnil, d)
+				delete(st.nonnil, "D"+d)
 				delete(st.isnil, d)
 				delete(st.ptr, d)
 			}
@@ -293,6 +324,9 @@ func (e *Engine) exec(fr *frame, st *State, in ssa.Instruction) {
 			e.objType[obj] = n.Obj().Name()
 		}
 		e.zeroObject(st, obj, t)
+		if x.Heap {
+			e.countAlloc(st, Const(1))
+		}
 	case *ssa.FieldAddr:
 		e.needNonNil(fr, st, x, x.X, "FieldAddr")
 		if a, ok := e.addrOf(st, x.X); ok {
@@ -315,11 +349,8 @@ func (e *Engine) exec(fr *frame, st *State, in ssa.Instruction) {
 		}
 		if isSliceLike(x.X.Type()) {
 			st.ptr[e.vid(x)] = Address{Obj: "", Path: ""}
-			if e.elemsNonNil(st, x.X) {
-				st.elemsNN["E"+e.vid(x)] = true // element address of an all-non-nil slice
-			} else {
-				delete(st.elemsNN, "E"+e.vid(x))
-			}
+			setBool(st.elemsNN, "E"+e.vid(x), e.elemsNonNil(st, x.X)) // element address of an all-non-nil slice
+			setBool(st.elemsNN, "DE"+e.vid(x), e.elemsDeepNN(st, x.X))
 		}
 	case *ssa.Index:
 		e.indexObligation(fr, st, x, x.X, x.Index)
@@ -335,7 +366,10 @@ func (e *Engine) exec(fr *frame, st *State, in ssa.Instruction) {
 		e.oblige(fr, "B-MAKE", x, "len>=0", st.Entails(l), "make: length must be non-negative")
 		e.allocObligation(fr, st, x, l)
 		st.Bind(e.lenAtomOf(x), l)
-		st.elemsNN[e.vid(x)] = !isPointerLike(x.Type().Underlying().(*types.Slice).Elem())
+		// make zero-fills: pointer-like elements are nil unless the slice is empty
+		empty := st.Subst(l).IsConst() && st.Subst(l).C == 0
+		st.elemsNN[e.vid(x)] = empty || !isPointerLike(x.Type().Underlying().(*types.Slice).Elem())
+		st.elemsNN["D"+e.vid(x)] = st.elemsNN[e.vid(x)]
 	case *ssa.UnOp:
 		e.unop(fr, st, x)
 	case *ssa.BinOp:
@@ -348,11 +382,21 @@ func (e *Engine) exec(fr *frame, st *State, in ssa.Instruction) {
 		e.copyValue(st, x, x.X)
 	case *ssa.MakeInterface:
 		st.nonnil[e.vid(x)] = true
+		setBool(st.nonnil, "D"+e.vid(x), e.isDeepNN(st, x))
 	case *ssa.TypeAssert:
 		if !x.CommaOk {
 			e.oblige(fr, "B-TAS", x, "assert", false, "type assertion without comma-ok may panic")
 		}
 		delete(st.nonnil, e.vid(x))
+		// the asserted value (component 0 of the comma-ok form) is a non-nil
+		// pointer when the interface operand was deeply non-nil
+		if x.CommaOk {
+			setBool(st.nonnil, e.vid(x)+"#0", e.isDeepNN(st, x.X))
+			setBool(st.nonnil, "D"+e.vid(x)+"#0", e.isDeepNN(st, x.X))
+		} else {
+			setBool(st.nonnil, e.vid(x), e.isDeepNN(st, x.X))
+			setBool(st.nonnil, "D"+e.vid(x), e.isDeepNN(st, x.X))
+		}
 	case *ssa.Extract:
 		e.extract(st, x)
 	case *ssa.Store:
@@ -393,9 +437,11 @@ func (e *Engine) fresh(st *State, v ssa.Value) {
 	case isSliceLike(v.Type()):
 		st.Forget(e.lenAtomOf(v))
 		delete(st.elemsNN, e.vid(v))
+		delete(st.elemsNN, "D"+e.vid(v))
 	default:
 		k := e.vid(v)
 		delete(st.nonnil, k)
+		delete(st.nonnil, "D"+k)
 		delete(st.isnil, k)
 		delete(st.ptr, k)
 		if _, ok := v.Type().Underlying().(*types.Struct); ok {
@@ -411,9 +457,11 @@ func (e *Engine) copyValue(st *State, dst, src ssa.Value) {
 	case isSliceLike(dst.Type()):
 		st.Bind(e.lenAtomOf(dst), e.lenExpr(st, src))
 		setBool(st.elemsNN, e.vid(dst), e.elemsNonNil(st, src))
+		setBool(st.elemsNN, "D"+e.vid(dst), e.elemsDeepNN(st, src))
 	default:
 		k := e.vid(dst)
 		setBool(st.nonnil, k, e.isNonNil(st, src))
+		setBool(st.nonnil, "D"+k, e.isDeepNN(st, src))
 		setBool(st.isnil, k, e.isNil(st, src))
 		if a, ok := e.addrOf(st, src); ok {
 			st.ptr[k] = a
@@ -499,8 +547,17 @@ func (e *Engine) sliceInstr(fr *frame, st *State, x *ssa.Slice) {
 	st.Bind(e.lenAtomOf(x), hi.Sub(lo))
 	if isSliceLike(x.X.Type()) {
 		setBool(st.elemsNN, e.vid(x), e.elemsNonNil(st, x.X))
+		setBool(st.elemsNN, "D"+e.vid(x), e.elemsDeepNN(st, x.X))
 	} else {
-		setBool(st.elemsNN, e.vid(x), false)
+		// slice of a (zero-filled or literal) array: elements are not tracked; an
+		// empty slice or a slice of non-pointer elements is vacuously all-non-nil
+		l := st.Subst(hi.Sub(lo))
+		nn := l.IsConst() && l.C == 0
+		if at, ok := x.Type().Underlying().(*types.Slice); ok && !isPointerLike(at.Elem()) {
+			nn = true
+		}
+		setBool(st.elemsNN, e.vid(x), nn)
+		setBool(st.elemsNN, "D"+e.vid(x), nn)
 	}
 }
 
@@ -520,9 +577,11 @@ func (e *Engine) extract(st *State, x *ssa.Extract) {
 			st.Forget(e.lenAtomOf(x))
 		}
 		setBool(st.elemsNN, e.vid(x), st.elemsNN[src])
+		setBool(st.elemsNN, "D"+e.vid(x), st.elemsNN["D"+src])
 	default:
 		k := e.vid(x)
 		setBool(st.nonnil, k, st.nonnil[src])
+		setBool(st.nonnil, "D"+k, st.nonnil["D"+src])
 		setBool(st.isnil, k, st.isnil[src])
 		if p, ok := st.ptr[src]; ok {
 			st.ptr[k] = p
@@ -554,14 +613,17 @@ func (e *Engine) loadFromKey(st *State, v ssa.Value, key string, known bool) {
 		if known {
 			st.Bind(e.lenAtomOf(v), st.Expr(e.cellLen(key)))
 			setBool(st.elemsNN, e.vid(v), st.elemsNN[key])
+			setBool(st.elemsNN, "D"+e.vid(v), st.elemsNN["D"+key])
 		} else {
 			st.Forget(e.lenAtomOf(v))
 			delete(st.elemsNN, e.vid(v))
+			delete(st.elemsNN, "D"+e.vid(v))
 		}
 	default:
 		k := e.vid(v)
 		if known {
 			setBool(st.nonnil, k, st.nonnil[key])
+			setBool(st.nonnil, "D"+k, st.nonnil["D"+key])
 			setBool(st.isnil, k, st.isnil[key])
 			if p, ok := st.ptr[key]; ok {
 				st.ptr[k] = p
@@ -570,6 +632,7 @@ func (e *Engine) loadFromKey(st *State, v ssa.Value, key string, known bool) {
 			}
 		} else {
 			delete(st.nonnil, k)
+			delete(st.nonnil, "D"+k)
 			delete(st.isnil, k)
 			delete(st.ptr, k)
 		}
@@ -605,6 +668,9 @@ func (e *Engine) unop(fr *frame, st *State, x *ssa.UnOp) {
 		// element of an all-non-nil slice
 		if st.elemsNN["E"+e.vid(x.X)] && isPointerLike(x.Type()) {
 			st.nonnil[e.vid(x)] = true
+		}
+		if st.elemsNN["DE"+e.vid(x.X)] && isPointerLike(x.Type()) {
+			st.nonnil["D"+e.vid(x)] = true
 		}
 	case token.NOT:
 		st.Bind(e.atomOf(x), Const(1).Sub(e.expr(st, x.X)))
@@ -883,6 +949,9 @@ func (e *Engine) convert(fr *frame, st *State, x *ssa.Convert) {
 		if b, ok := x.X.Type().Underlying().(*types.Basic); ok && b.Info()&types.IsString != 0 || isStringType(x.Type()) {
 			l := e.lenExpr(st, x.X)
 			e.oblige(fr, "M-ALLOC", x, "size", true, "copy of an existing string/slice: size = its length")
+			if !onlyUsedByLen(x) { // len([]byte(s)) does not allocate
+				e.countAlloc(st, l)
+			}
 			st.Bind(e.lenAtomOf(x), l)
 			st.elemsNN[e.vid(x)] = true
 			return
@@ -940,6 +1009,14 @@ func (e *Engine) store(fr *frame, st *State, x *ssa.Store) {
 	if !ok {
 		// element store into a slice: maintain the all-non-nil flag of that slice (weakly)
 		if ia, isIdx := x.Addr.(*ssa.IndexAddr); isIdx && isSliceLike(ia.X.Type()) {
+			if isPointerLike(t) && !e.isDeepNN(st, x.Val) {
+				delete(st.elemsNN, "D"+e.vid(ia.X))
+				for k := range st.elemsNN {
+					if strings.HasPrefix(k, "D") && !strings.HasPrefix(k, "Dv") && !strings.HasPrefix(k, "DE") {
+						delete(st.elemsNN, k)
+					}
+				}
+			}
 			if isPointerLike(t) && !e.isNonNil(st, x.Val) {
 				delete(st.elemsNN, e.vid(ia.X))
 				// the slice may be stored in a cell: conservatively clear all flags of that element type
@@ -962,6 +1039,7 @@ func (e *Engine) store(fr *frame, st *State, x *ssa.Store) {
 	case isSliceLike(t):
 		st.Bind(e.cellLen(key), e.lenExpr(st, x.Val))
 		setBool(st.elemsNN, key, e.elemsNonNil(st, x.Val))
+		setBool(st.elemsNN, "D"+key, e.elemsDeepNN(st, x.Val))
 	default:
 		if _, isStruct := t.Underlying().(*types.Struct); isStruct {
 			if c, isConst := x.Val.(*ssa.Const); isConst && c.Value == nil {
@@ -972,6 +1050,7 @@ func (e *Engine) store(fr *frame, st *State, x *ssa.Store) {
 			return
 		}
 		setBool(st.nonnil, key, e.isNonNil(st, x.Val))
+		setBool(st.nonnil, "D"+key, e.isDeepNN(st, x.Val))
 		setBool(st.isnil, key, e.isNil(st, x.Val))
 		if p, ok := e.addrOf(st, x.Val); ok {
 			st.ptr[key] = p
@@ -984,28 +1063,55 @@ func (e *Engine) store(fr *frame, st *State, x *ssa.Store) {
 // allocObligation (M-ALLOC M1): a single allocation of n elements is bounded
 // by a constant <= 2^16+16 or by the length of a slice (input-derived).
 func (e *Engine) allocObligation(fr *frame, st *State, in ssa.Instruction, n Lin) {
-	if !fr.check {
-		return
-	}
 	ok := st.Entails(Const(1<<16 + 16).Sub(n))
-	how := "bounded by a constant"
-	if !ok {
-		// bounded by (a small multiple of) the length of some slice-typed parameter / value
-		sn := st.Subst(n)
-		for _, t := range sn.T {
-			_ = t
-		}
+	if !ok && fr.check {
+		// bounded by (a small multiple of) the length of some slice-typed parameter
 		for v, la := range e.lenAtoms {
 			if _, isParam := v.(*ssa.Parameter); !isParam {
 				continue
 			}
 			if st.Entails(Var(la).Scale(4).AddConst(64).Sub(n)) {
 				ok = true
-				how = "bounded by 4*len(" + v.Name() + ")+64"
 				break
 			}
 		}
 	}
 	e.oblige(fr, "M-ALLOC", in, "size", ok, "allocation size "+e.linStr(st.Subst(n))+" must be bounded by a constant <= 65552 or by the input length")
-	_ = how
+	e.countAlloc(st, n)
+}
+
+// AllocCounter is the ghost cell that accumulates the number of elements /
+// objects allocated so far (M-ALLOC M2/M3).
+const allocCounterKey = "ghost:allocs"
+
+func (e *Engine) allocAtom() Atom {
+	return e.cellAtomOf(allocCounterKey, Range{0, 1 << 60, true, true})
+}
+
+func (e *Engine) countAlloc(st *State, n Lin) {
+	// The ghost allocation counter (amortised M3 accounting) is disabled: it
+	// entangled every state with a 2^60-range atom and made results fragile.
+	// M-ALLOC is decided as M1 (single allocation bounded) + M2 (every loop that
+	// may allocate has a bounded trip count); see DESIGN.md.
+}
+
+func onlyUsedByLen(v ssa.Value) bool {
+	refs := v.Referrers()
+	if refs == nil || len(*refs) == 0 {
+		return false
+	}
+	for _, r := range *refs {
+		if _, ok := r.(*ssa.DebugRef); ok {
+			continue
+		}
+		c, ok := r.(*ssa.Call)
+		if !ok {
+			return false
+		}
+		b, ok := c.Common().Value.(*ssa.Builtin)
+		if !ok || b.Name() != "len" {
+			return false
+		}
+	}
+	return true
 }
